@@ -180,12 +180,26 @@ def binder_programs():
             cm.append(Method(k, "%s%d" % (p, j), args(ch, j)))
             im.append(Method(k, "i%s%d" % (p, j), args(ch, j + 3)))
     out = [("pbind0", Contract(methods=tuple(cm), interfaces=(iface(0, im),), entry_points=""), {"types", "argnames", "binders"})]
-    W2 = 9
+    W2 = 12
     for j, k in enumerate(range(0, len(names), W2)):
         ch = names[k:k + W2]
         ms = [Method("instantiate", "inst", args(ch, j)), Method("migrate", "mig", args(list(reversed(ch)), j + 1)), Method("exec", "ex", ())]
         out.append(("pbind%d" % (j + 1), Contract(methods=tuple(ms), entry_points=""), {"types", "argnames", "binders"}))
     return out
+
+
+def items_program():
+    """Handlers interleaved with other legal items of the impl block / trait (associated consts, helper methods):
+    every annotated method still gets its message, wherever it stands."""
+    a = (Arg("a", "u32"),)
+    cm = [Method("instantiate", "inst", a), Method("exec", "e_first", a), Method("query", "q_mid", a), Method("exec", "e_second", (Arg("b1", "String"),)),
+          Method("sudo", "s_late", a), Method("migrate", "mig", a), Method("query", "q_last", ())]
+    mids = ((0, "pub const LIMIT: u32 = 3;"), (2, "fn helper(&self) -> u32 { Self::LIMIT }"), (3, "const OTHER: &'static str = \"x\";"),
+            (5, "#[allow(dead_code)]\n    pub fn helper2(&self, _x: u32) {}"), (6, "pub const LAST: u8 = 0;"))
+    im = [Method("exec", "ie", a), Method("query", "iq", a), Method("sudo", "is", a), Method("exec", "ie2", ())]
+    i0 = Interface(name="If0", module="if0", methods=tuple(im), custom="msg=Empty, query=Empty",
+                   mid_items=((0, "fn helper(&self) -> u32 { 7 }"), (2, "fn helper2(&self, _x: u32) -> bool { true }"), (3, "fn helper3(&self) {}")))
+    return Contract(methods=tuple(cm), interfaces=(i0,), mid_items=mids, entry_points="")
 
 
 def prefix_program():
@@ -239,6 +253,7 @@ def programs(tier):
     out.append(("precase0", recase_program(), {"samename", "recase"}))
     out.append(("pctxmix0", ctxmix_program(), {"samename", "kinds", "ctxmix"}))
     out.append(("pinstnames0", instnames_program(), {"types", "argnames"}))
+    out.append(("pitems0", items_program(), {"kinds", "items"}))
     out.extend(binder_programs())
     for n in (0, 1, 2):
         out.append(("pparts%d" % n, parts_program(n), {"parts"}))
